@@ -3,7 +3,8 @@
 P=$1; shift
 cd /repo || exit 2
 git diff --quiet || { echo "/repo has uncommitted changes"; exit 2; }
-git apply "$P" || { echo "patch does not apply"; exit 2; }
+git apply "$P" 2>/dev/null || git apply --3way "$P" || { echo "patch does not apply"; git checkout -- . ; exit 2; }
+git reset -q
 for id in "$@"; do
   out=$(cd /verif && bin/check $id 2>&1); rc=$?
   echo "--- $id exit=$rc"; echo "$out" | grep -E "^(VIOLATION:|ANCHOR-LOST:|KNOWN)|^    key=|^    [a-zA-Z]" | head -${LINES_MAX:-12}
